@@ -27,7 +27,6 @@ def algos(thorough=False):
             for k, vals in sorted(knobs.items()):
                 for v in vals[1:]:
                     out.append({k: v})
-                    out.append({k: v, 'cache': True})
         # de-duplicate
         seen = []
         for d in out:
@@ -131,11 +130,17 @@ def query_all(nnps, pas, use_find_all=False):
     return out
 
 
-def check_lists(pas, got, sort_gids=False):
+def brute_all(pas):
+    return {(di, si): brute(pas, RS, si, di) for di in range(len(pas))
+            for si in range(len(pas))}
+
+
+def check_lists(pas, got, sort_gids=False, ref=None):
     """Returns list of (kind, detail) problems."""
     probs = []
     for (di, si), lists in got.items():
-        must, may = brute(pas, RS, si, di)
+        must, may = ref[(di, si)] if ref is not None else \
+            brute(pas, RS, si, di)
         ns = pas[si].get_number_of_particles()
         gids = pas[si].get('gid', only_real_particles=False)
         for i, l in enumerate(lists):
